@@ -671,10 +671,17 @@ func vfSEMsgRun(t testing.TB, rw *vfRWorld, sc vfScript) []map[string]any {
 			"gok": bytes.Equal(evt.GetEventContext().GetGroupPk(), w.groups[gl].PublicKey)}
 	}
 	// barrier: sentinel rounds on V's store of group gl until one round is silent
+	restless := false
 	barrier := func(gl string, minRounds int) {
+		if restless {
+			return
+		}
 		for round := 0; ; round++ {
 			if round > 40 {
-				vfInfra("message pipeline of V does not come to rest")
+				// V keeps handing events to subscribers although nothing arrives any more
+				out = append(out, map[string]any{"ev": "restless", "g": gl})
+				restless = true
+				return
 			}
 			tag := make([]byte, 12)
 			rnd.Read(tag)
@@ -693,10 +700,7 @@ func vfSEMsgRun(t testing.TB, rw *vfRWorld, sc vfScript) []map[string]any {
 					if c == sid {
 						break wait
 					}
-					if labelOf[c] == "s" {
-						vfInfra("an earlier sentinel was emitted again")
-					}
-					d := describe(evt, gl)
+					d := describe(evt, gl) // (an earlier sentinel emitted again shows up as an event of the unknown entry "s")
 					d["ev"], d["g"] = "emit", gl
 					out = append(out, d)
 					n++
@@ -782,6 +786,9 @@ func vfSEMsgRun(t testing.TB, rw *vfRWorld, sc vfScript) []map[string]any {
 		}
 	}
 	for i, st := range sc.Steps {
+		if restless {
+			break
+		}
 		a := st.A
 		switch st.Act {
 		case "seal":
@@ -934,11 +941,17 @@ func vfSEMsgRun(t testing.TB, rw *vfRWorld, sc vfScript) []map[string]any {
 			vfInfra("unknown action %q", st.Act)
 		}
 	}
+	if restless {
+		return out
+	}
 	for _, gl := range []string{"g1", "g2"} {
 		barrier(gl, 2)
 		list(gl, "live")
 		rpclist(gl)
 		barrier(gl, 1)
+	}
+	if restless {
+		return out
 	}
 	reopen()
 	for _, gl := range []string{"g1", "g2"} {
@@ -1197,6 +1210,35 @@ func (w *vfSEMetaW) drain() []vfSEMetaSeen {
 	}
 }
 
+// vfSEAppend: raw append of an envelope; a panic of the store's own index is reported, not propagated
+func vfSEAppend(ctx context.Context, ms *MetadataStore, env []byte) (ent ipfslog.Entry, err error, crashed string) {
+	defer func() {
+		if x := recover(); x != nil {
+			crashed = fmt.Sprint(x)
+		}
+	}()
+	ent, err = ms.AddOperation(ctx, operation.NewOperation(nil, "ADD", env), nil)
+	if err != nil && strings.Contains(err.Error(), "unable to update index") {
+		// the entry is in the log, the store's index refuses to work from now on
+		crashed, err = err.Error(), nil
+	}
+	return
+}
+
+// vfSEGuard runs f; a panic of the code under test in this goroutine is reported
+func vfSEGuard(f func()) (crashed string) {
+	defer func() {
+		if x := recover(); x != nil {
+			if s, ok := x.(string); ok && strings.HasPrefix(s, "VERIF-INFRA") {
+				panic(x)
+			}
+			crashed = fmt.Sprint(x)
+		}
+	}()
+	f()
+	return ""
+}
+
 func vfSEListIDs(ctx context.Context, ms *MetadataStore) []string {
 	ch, err := ms.ListEvents(ctx, nil, nil, false)
 	vfSEMust(err, "ListEvents")
@@ -1269,7 +1311,13 @@ func vfSEMetaRun(t testing.TB, rw *vfRWorld, sc vfScript) []map[string]any {
 			if st.S == "H" {
 				r = w.H
 			}
-			ent, err := w.ms(r).AddOperation(ctx, operation.NewOperation(nil, "ADD", e.bytes), nil)
+			ent, err, crashed := vfSEAppend(ctx, w.ms(r), e.bytes)
+			if crashed != "" {
+				// the store of the writing replica itself panicked while indexing the entry it appended: recorded, the
+				// history ends here (every other replica runs the same index code when the entry reaches it)
+				out = append(out, map[string]any{"ev": "crash", "i": st.X, "w": st.S, "world": kind, "tm": st.A, "what": crashed})
+				return out
+			}
 			vfSEMust(err, "append")
 			nwritten[st.S]++
 			wr[st.X] = &written{entry: ent, src: w.ms(r), writer: st.S, seq: nwritten[st.S], env: e, tm: tm, a: st.A, ctl: st.Y == 1}
@@ -1282,61 +1330,97 @@ func vfSEMetaRun(t testing.TB, rw *vfRWorld, sc vfScript) []map[string]any {
 			if x == nil || x.done {
 				vfInfra("deliver of an entry that was not written (or twice): %d", st.X)
 			}
-			if x.seq != ndelivered[x.writer]+1 {
-				vfInfra("script delivers entry %d of writer %s out of the writer's order", st.X, x.writer)
+			// the head arrives with the part of its writer's log V lacks: one replication batch
+			var batch []*written
+			var idxs []int
+			for k, y := range wr {
+				if y.writer == x.writer && !y.done && y.seq <= x.seq {
+					batch = append(batch, y)
+					idxs = append(idxs, k)
+				}
 			}
-			ndelivered[x.writer]++
-			x.done = true
+			sort.Slice(batch, func(i, j int) bool { return batch[i].seq < batch[j].seq })
+			sort.Ints(idxs)
+			if batch[0].seq != ndelivered[x.writer]+1 {
+				vfInfra("gap in the delivered part of the log of writer %s", x.writer)
+			}
+			ndelivered[x.writer] = x.seq
+			anyCtl := false
+			ids := map[string]*written{}
+			for _, y := range batch {
+				y.done = true
+				anyCtl = anyCtl || y.ctl
+				ids[y.entry.GetHash().String()] = y
+			}
 			w.drain()
 			pre, _, _ := vfSnapshot(w.ms(w.R))
 			fresh := vfSESync(ctx, w.ms(w.R), x.src, x.entry)
-			if x.ctl {
-				vfSESync(ctx, w.ms(w.R0), x.src, x.entry)
+			// the control receives the same batch without the forged entries: the latest entry of the batch it may have
+			for k := len(batch) - 1; k >= 0; k-- {
+				if batch[k].ctl {
+					vfSESync(ctx, w.ms(w.R0), x.src, batch[k].entry)
+					break
+				}
 			}
 			w.barrier()
-			id := x.entry.GetHash().String()
-			emr, gme, stray := 0, 0, 0
-			tyok, sameok := true, true
-			for _, s := range w.drain() {
-				if s.id != id {
+			type cnt struct {
+				emr, gme     int
+				tyok, sameok bool
+			}
+			seen := map[string]*cnt{}
+			stray := 0
+			for _, sn := range w.drain() {
+				y := ids[sn.id]
+				if y == nil {
 					stray++
 					continue
 				}
-				if s.emr {
-					emr++
+				c := seen[sn.id]
+				if c == nil {
+					c = &cnt{tyok: true, sameok: true}
+					seen[sn.id] = c
+				}
+				if sn.emr {
+					c.emr++
 				} else {
-					gme++
+					c.gme++
 				}
-				if s.ty != x.tm.Ty {
-					tyok = false
+				if sn.ty != y.tm.Ty {
+					c.tyok = false
 				}
-				if !bytes.Equal(s.pay, x.env.payload) {
-					sameok = false
+				if !bytes.Equal(sn.pay, y.env.payload) {
+					c.sameok = false
 				}
 			}
 			post, _, _ := vfSnapshot(w.ms(w.R))
 			ctlSnap, _, _ := vfSnapshot(w.ms(w.R0))
 			lr, l0 := vfSEListIDs(ctx, w.ms(w.R)), vfSEListIDs(ctx, w.ms(w.R0))
-			listed := false
-			for _, l := range lr {
-				if l == id {
-					listed = true
-				}
-			}
-			rpcl := false
 			revs, rerr := vfSERPCMetadata(w.R.gcs[w.g.GroupIDAsString()])
 			rids := []string{}
 			for _, e := range revs {
 				c, _ := vfSECid(e.GetEventContext().GetId())
 				rids = append(rids, c)
-				if c == id {
-					rpcl = true
-				}
 			}
-			out = append(out, map[string]any{"ev": "mdeliver", "i": st.X, "w": x.writer, "world": kind, "tm": x.a, "helper": x.env.helper,
-				"n": len(fresh), "ctl": x.ctl, "emr": emr, "gme": gme, "stray": stray, "tyok": tyok, "sameok": sameok,
-				"unch": vfSEEqual(pre, post), "eqc": vfSEEqual(post, ctlSnap), "leq": w.listsAgree(lr, l0),
-				"listed": listed, "rpclisted": rpcl, "rpceq": rerr == nil && vfSEEqual(rids, lr)})
+			has := func(l []string, id string) bool {
+				for _, v := range l {
+					if v == id {
+						return true
+					}
+				}
+				return false
+			}
+			for bi, y := range batch {
+				id := y.entry.GetHash().String()
+				c := seen[id]
+				if c == nil {
+					c = &cnt{tyok: true, sameok: true}
+				}
+				// "unchanged" can only be judged when nothing but entries withheld from the control arrived together
+				out = append(out, map[string]any{"ev": "mdeliver", "i": idxs[bi], "w": y.writer, "world": kind, "tm": y.a, "helper": y.env.helper,
+					"n": len(fresh), "nb": len(batch), "ctl": y.ctl, "emr": c.emr, "gme": c.gme, "stray": stray, "tyok": c.tyok, "sameok": c.sameok,
+					"unch": anyCtl || vfSEEqual(pre, post), "eqc": vfSEEqual(post, ctlSnap), "leq": w.listsAgree(lr, l0),
+					"listed": has(lr, id), "rpclisted": has(rids, id), "rpceq": rerr == nil && vfSEEqual(rids, lr)})
+			}
 		default:
 			vfInfra("unknown action %q", st.Act)
 		}
@@ -1347,7 +1431,11 @@ func vfSEMetaRun(t testing.TB, rw *vfRWorld, sc vfScript) []map[string]any {
 	w.R.gcs[w.g.GroupIDAsString()].Close()
 	delete(w.R.gcs, w.g.GroupIDAsString())
 	w.R.Reopen()
-	w.openR()
+	if c := vfSEGuard(w.openR); c != "" {
+		// V cannot open its own database any more
+		out = append(out, map[string]any{"ev": "rcrash", "world": kind, "what": c})
+		return out
+	}
 	w.R0.Reopen(w.g)
 	w.emitters()
 	w.barrier()
@@ -1416,7 +1504,16 @@ func vfSEPoisonProbe(t testing.TB, rw *vfRWorld, sc vfScript) []map[string]any {
 		}
 		return e.Error()
 	}
-	out = append(out, map[string]any{"ev": "probe", "world": kind, "opens": oerr == nil, "writer_err": errs(werr), "writer_heads": len(heads),
+	// second observation: a correctly signed AccountGroupJoined without a group makes the index handler dereference nil
+	gj := &protocoltypes.AccountGroupJoined{DevicePk: vfSERaw(emd.Device())}
+	gsig, err := signProtoWithDevice(gj, emd)
+	vfSEMust(err, "sign")
+	genv, err := sealGroupEnvelope(w.g, protocoltypes.EventType_EventTypeAccountGroupJoined, gj, gsig)
+	vfSEMust(err, "seal")
+	_, _, gerr := openGroupEnvelope(w.g, genv)
+	_, _, gcrash := vfSEAppend(ctx, w.ms(w.E), genv)
+	out = append(out, map[string]any{"ev": "probe", "world": kind, "what": "AccountGroupJoined without group", "opens": gerr == nil, "writer_index_panic": gcrash})
+	out = append(out, map[string]any{"ev": "probe", "world": kind, "what": "ContactAliasKeyAdded with a 5-byte alias key", "opens": oerr == nil, "writer_err": errs(werr), "writer_heads": len(heads),
 		"replicated_event_after_poison": rep1, "log_grew_by": grew1, "victim_own_write_err": errs(ownErr), "honest_write_err": errs(herr),
 		"replicated_event_after_honest": rep2, "log_grew_by_honest": grew2, "emissions_seen": len(w.drain())})
 	return out
